@@ -52,7 +52,13 @@ def impl(c):
     rng = random.Random(c["s"]); k = c["kind"]
     if k == "parking":
         a = c["a"]; out = {"is": bool(is_parking_function(list(a), c["n"]) if c["n"] is not None else is_parking_function(list(a))), "a_unchanged": True}
-        g = generate_parking_functions(c["gen"]); out["gen"] = sorted(g); out["gen_len"] = len(g); out["count"] = parking_function_count(c["gen"])
+        g = generate_parking_functions(c["gen"]); out["gen"] = sorted(list(x) for x in g); out["gen_len"] = len(g); out["count"] = parking_function_count(c["gen"])
+        # history: the caller edits the returned list in place (shifting each sequence down by one to compare with superstables of K_(n+1), dropping one), then asks again
+        for seq in g:
+            if isinstance(seq, list):
+                for i in range(len(seq)): seq[i] -= 1
+        if isinstance(g, list) and g: g.pop()
+        g2 = generate_parking_functions(c["gen"]); out["gen_again"] = sorted(list(x) for x in g2)
         return out
     G = c["G"]; names = G["names"]; ext = names + ["zz_u0", "zz_u1"]; n = G["n"]
     d = common.build_impl_divisor(G, c["D"], rng=rng); cfg = CFConfig(d, names[c["q"]]); before = common.div_to_list(G, d)
@@ -93,6 +99,7 @@ def judge(c, r, mo):
         if o["is"] != (mo[0][0] == "1"): out.append({"what": "is_parking_function(%s, n=%s) = %s, model %s" % (c["a"], c["n"], o["is"], mo[0][0])})
         txt = " ".join(mo[1]); cnt = int(mo[1][0]); pc = int(mo[1][1]); seqs = sorted([int(x) for x in s.split()] for s in txt.split(" ", 2)[2].split(";") if s.strip()) if cnt else []
         if o["gen"] != seqs or o["gen_len"] != cnt: out.append({"what": "generate_parking_functions(%d): %d sequences, model %d (or different members)" % (c["gen"], o["gen_len"], cnt)})
+        if o.get("gen_again", seqs) != seqs: out.append({"what": "generate_parking_functions(%d) called again after the caller edited the first result in place: %s, model %s" % (c["gen"], o["gen_again"][:6], seqs[:6])})
         if o["count"] != pc or (c["gen"] >= 1 and o["count"] != o["gen_len"]): out.append({"what": "parking_function_count(%d) = %s, generated %d, formula %d" % (c["gen"], o["count"], o["gen_len"], pc)})
         return out
     if not o.get("pure", True): out.append({"what": "a legality / superstability / comparison query modified the divisor"})
@@ -122,6 +129,7 @@ def oracle(c, r):
         why = []
         if o["is"] != truth: why.append("predicate %s, definition %s" % (o["is"], truth))
         if o["gen"] != allp: why.append("generator wrong")
+        if o.get("gen_again", allp) != allp: why.append("generator wrong on the second call (result shared with the first caller)")
         if o["count"] != (0 if m <= 0 else (m + 1) ** (m - 1)) or (m >= 1 and o["count"] != len(allp)): why.append("count wrong")
         return {"violates": bool(why), "why": why}
     m = O.mk(c["G"]); n = len(m); q = c["q"]; D = c["D"]
